@@ -213,7 +213,10 @@ def run(ck, prog, ctx):
                 ck.undecided("ROLE", nm + "/record/enrichment-formula", "%s: fold-enrichment expression %s has leaves that are not recognised" % (nm, eshow(fe)), where=b.where(t.line))
             else:
                 ck.ob("ROLE", nm + "/record/enrichment-formula", feq, "%s: fold enrichment %s %s (k/n)/(K/N)" % (nm, eshow(fe), "=" if feq else "is NOT algebraically equal to"), where=b.where(t.line))
-            ck.ob("ROLE", nm + "/record/enrichment", d == want, "%s: fold enrichment has dimension %s (expected k*N/(n*K))" % (nm, d if d is not None else "unknown (non-float or unrecognised arithmetic)"), where=b.where(t.line))
+            if d is None:
+                ck.undecided("ROLE", nm + "/record/enrichment", "%s: the fold enrichment is not computed by recognisable float arithmetic in this function (helper?)" % nm, where=b.where(t.line))
+            else:
+                ck.ob("ROLE", nm + "/record/enrichment", d == want, "%s: fold enrichment has dimension %s (expected k*N/(n*K))" % (nm, d if d is not None else "unknown (non-float or unrecognised arithmetic)"), where=b.where(t.line))
     ck.floor("ROLE", "inner enrichment functions", n_inner, 2)
 
     check_complete_iteration(ck, "ROLE", prog, INNER + ["stats::calculate_counts"] + [b.id for b in prog.find(r"^stats::SampleSet::<.*>::(gene|omim_disease|orpha_disease)$")], "the sample / the annotations of a term")
@@ -430,15 +433,25 @@ def run(ck, prog, ctx):
             (frozenset({"population", "successes"}), False, True, frozenset({"draws"}), True, True): "C(population-successes, draws-i)",
         }
         seen = set()
+        # terms computed outside sf's own closures (a private helper, or a plain `for` loop whose element is not a closure parameter)
+        # are not classified: the per-term rule is then undecided, never a violation
+        outside = [t2 for hb in prog.production() if hb.file == sf.file and hb not in fam and hb.kind in ("Fn", "AssocFn") and hb.id in prog.reachable_bodies([sf.id]) for _, t2 in hb.calls() if (t2.callee.res or "").endswith("statrs::ln_binomial")]
+        in_plain_loop = [x for x in lb if x[6].kind != "Closure" and x[6].loop_of(next(bi_ for bi_, t_ in x[6].calls() if t_ is x[7])) is not None]
+        unclassifiable = bool(outside) or bool(in_plain_loop)
         for x in lb:
             key = x[:6]
             nm = want.get(key)
             if nm:
                 seen.add(nm)
+            elif unclassifiable:
+                continue
             else:
                 ck.violation("TABLE", "sf/ln_binomial/%d" % len(seen), "unexpected binomial term ln_binomial(%s%s%s, %s%s%s)" % ("-".join(sorted(x[0])), "+i" if x[1] else "", " (difference)" if x[2] else "", "-".join(sorted(x[3])), "i" if x[4] else "", " (difference)" if x[5] else ""), where=x[6].where(x[7].line))
         for nm in want.values():
-            ck.ob("TABLE", "sf/term/" + nm, nm in seen, "sf %s the term %s" % ("uses" if nm in seen else "LACKS", nm), where=sf.where())
+            if nm not in seen and unclassifiable:
+                ck.undecided("TABLE", "sf/term/" + nm, "the summand of the tail is computed in a helper / plain loop: the term %s is not classified" % nm, where=sf.where())
+            else:
+                ck.ob("TABLE", "sf/term/" + nm, nm in seen, "sf %s the term %s" % ("uses" if nm in seen else "LACKS", nm), where=sf.where())
     lf = prog.body("stats::hypergeom::statrs::ln_factorial")
     if lf is not None:
         ok = False
@@ -476,4 +489,9 @@ def run(ck, prog, ctx):
     # ---- accessors: a method named after a field returns that field, not a sibling of the same type
     ck.rule("GETTER", "an accessor `f()` / `f_mut()` of a struct with a field `f` (or its documented alias) derives its result from that field (DESIGN 3.9)")
     from engines import check_getters
-    check_getters(ck, "GETTER", prog, r"^src/stats\.rs$", floor=4)
+    check_getters(ck, "GETTER", prog, r"^src/stats\.rs$", floor=2)
+
+    # ---- constructors: a field named like a parameter is initialised from that parameter, not from a sibling of the same type
+    ck.rule("CTOR", "in a struct literal, the field `f` of a function with a parameter `f` derives from that parameter (DESIGN 3.9)")
+    from engines import check_ctors
+    check_ctors(ck, "CTOR", prog, r"^src/stats\.rs$|^src/stats/hypergeom/", floor=8)
